@@ -16,8 +16,8 @@ def sh(cmd, cwd=wt, timeout=7200):
     return p.returncode, (p.stdout + p.stderr)[-3000:]
 meta = json.load(open(f"{src}/meta.json"))
 run = open(f"{src}/RUN.md").read()
-cps = re.findall(r"^\s*cp\s+(/root/mut/out/\S+)\s+(\S+)", run, re.M)
-tests = re.findall(r"^\s*(go1\.26\.8 test [^\n#]*-run[^\n#]*)", run, re.M)
+cps = re.findall(r"cp\s+(/root/mut/out/\S+)\s+([^\s`]+)", run)
+tests = re.findall(r"(go1\.26\.8 test [^\n#`]*-run[^\n#`]*)", run)
 if not cps or not tests:
     print("cannot parse RUN.md", cps, tests); sys.exit(2)
 demo_cmd = tests[0].strip()
